@@ -157,7 +157,7 @@ func genAdv(prop string) func(rt *rapid.T) interface{} {
 			kinds = append(kinds, advFuzz...)
 			kinds = append(kinds, advFuzz...)
 			kinds = append(kinds, advFuzz...)
-			kinds = append(kinds, "ps-m5-badltpk", "ps-m5-badltpk", "pairings-add-shortkey", "pairings-add-shortkey", "pv-m3-shortkey-name", "pv-m3-shortkey-name", "ps-m3-a0-pubproof", "ps-m3-longA", "ps-m3-badprooflen", "ps-m5-weak")
+			kinds = append(kinds, "reuse-addr", "reuse-addr", "ps-m5-badltpk", "ps-m5-badltpk", "pairings-add-shortkey", "pairings-add-shortkey", "pv-m3-shortkey-name", "pv-m3-shortkey-name", "ps-m3-a0-pubproof", "ps-m3-longA", "ps-m3-badprooflen", "ps-m5-weak")
 			kinds = append(kinds, "ps-m1", "ps-m3-right", "ps-m3-wrong", "ps-m3-a0", "ps-m3-noA", "ps-m5-short", "ps-m5-random", "ps-m5-tampered", "ps-unknown-state", "ps-unknown-method",
 				"pv-m1", "pv-m1-short", "pv-m3-genuine", "pv-m3-short", "pv-m3-wrongseal", "pv-m3-badtlv", "pv-m3-unknown", "pv-m3-self", "pv-unknown-state", "get-acc", "put-val", "put-ev", "get-chars")
 		}
@@ -535,6 +535,38 @@ func (aw *advWorld) do(p *peerConn, op AdvOp) *advResult {
 		p.m3rightOK, p.setupClean, p.srp = false, false, nil
 		if aw.on("C02") && r.TLV != nil && (len(r.TLV[ref.TagProof]) > 0 || len(r.TLV[ref.TagEncrypted]) > 0) {
 			aw.violate("proof-for-wrong-m3", "the answer to a verify request built without the setup code (%s) carries a proof / encrypted data", op.Kind)
+		}
+	case "reuse-addr":
+		// the controller goes away and comes back from the same address and port (a reboot that
+		// reuses the source port) before the accessory has noticed that the old connection ended
+		addr := p.conn.Client().LocalAddr().String()
+		p.cl.Conn.Close()
+		c := w.Sim.Dial(w.Sim.Listener, addr)
+		cl := &ref.Client{Conn: c.Client(), Rand: w.Rand}
+		name := p.name
+		cl.Yield = func(what string) { w.Sim.Park("step", name, c.ID, " "+what, nil) }
+		p.cl, p.conn = cl, c
+		p.conns = append(p.conns, c)
+		p.dead = false
+		p.srp, p.salt, p.B, p.m3rightOK, p.setupClean, p.pvStarted, p.pvHave = nil, nil, nil, false, false, false, false
+		w.Sim.Count("fault.address_reuse")
+		if sc.KnowsKey && !sc.Unpaired {
+			aw.allowedVerified[c.ID] = true
+			ok, err := aw.honestVerify(cl, 0)
+			if err != nil || !ok {
+				if aw.on("C13") {
+					aw.violate("wedged-after-address-reuse", "a correct pair-verify on a new connection from the address of a connection that just ended fails: ok=%v err=%v", ok, err)
+				}
+				p.dead = true
+				return r
+			}
+			aw.verifiedConns[c.ID] = true
+			p.request("GET", "/accessories", "", nil, r)
+			if aw.on("C13") && r.Status != 200 {
+				aw.violate("wedged-after-address-reuse", "GET /accessories after a correct pair-verify on the reused address fails: status %d err %s", r.Status, r.Err)
+			}
+		} else {
+			p.request("GET", "/accessories", "", nil, r)
 		}
 	case "ps-m5-badltpk":
 		// a correctly sealed key exchange whose long-term public key has a wrong length
